@@ -694,3 +694,17 @@ Proof.
   - right. destruct (m !! i); inversion H; repeat split; congruence.
   - right. inversion H; repeat split; congruence.
 Qed.
+
+(* ---------- results do not depend on the registered listeners ---------- *)
+Lemma results_independent_of_listeners_pf : forall pfx newid c st (m : smap) o o',
+  op_sim o o' ->
+  bstep pfx st o = bstep pfx st o' /\ mstep newid st o = mstep newid st o' /\ spec_step c m o = spec_step c m o'.
+Proof.
+  intros pfx newid c st m o o' H.
+  destruct o as [i v e|i v e|i e|i|i]; destruct o' as [i' v' e'|i' v' e'|i' e'|i'|i']; cbn [op_sim] in H; try contradiction.
+  - destruct H as (-> & -> & Hw & Hv & Hn & Hu). cbn [bstep mstep spec_step touch]. rewrite Hw, Hv, Hn, Hu. repeat split.
+  - destruct H as (-> & -> & Hw & Hv & Hn & Hu). cbn [bstep mstep spec_step touch]. rewrite Hw, Hv, Hu. repeat split.
+  - destruct H as (-> & Hw & Hv & Hn & Hu). cbn [bstep mstep spec_step touch]. rewrite Hv. repeat split.
+  - subst. repeat split.
+  - subst. repeat split.
+Qed.
